@@ -203,6 +203,7 @@ func cmdBaseline(only ...string) int {
 			continue
 		}
 		delete(bl, prop)
+		os.Setenv("GCV_NORETRY", "1") // admission is strict: 10 s, no second chance
 		pr := runProperty(p, prop, "quick", "")
 		wd := newWorkDir()
 		solveAll(pr, wd, 10, false)
